@@ -30,6 +30,8 @@ def make_args(r, group, sig):
             a += gen.element(r, group, norm="valid")[0]
         elif ch == "T":
             a += gen.tangent(r, group)[0]
+        elif ch == "S":
+            a.append(r.choice([2.0, -0.5, 3.7, 1e-3, 1e6]))
         else:
             a += gen.point(r, group)[0]
     return a
@@ -218,7 +220,7 @@ def run_c10(exe, groups, r, n, dbg=True):
     H = Guarded(exe)
     viol, lines, cells = [], [], set()
     ops = list(MASKED.items()) + [(o, ("T", 0)) for o in ("rjac", "ljac", "rjacinv", "ljacinv", "smallAdj", "hat")] + \
-          [(o, ("G", 0)) for o in ("adj", "transform")] + [("bracket", ("TT", 0)), ("inner", ("TT", 0))]
+          [(o, ("G", 0)) for o in ("adj", "transform")] + [("bracket", ("TT", 0)), ("inner", ("TT", 0)), ("t_arith", ("TTS", 0))]
     try:
         for group in groups:
             for op, (sig, nj) in ops:
@@ -227,7 +229,7 @@ def run_c10(exe, groups, r, n, dbg=True):
                     mask = r.randrange(1 << nj) if nj else 0
                     got = {}
                     for st in "omc":
-                        line = gen.req(dbg, st, group, op, mask, a)
+                        line = gen.req(dbg, st, group, op, mask | 128, a)      # operands echoed after the call: none may change
                         lines.append(line)
                         got[st] = H.ask(line)
                         cells.add((group, op, st))
